@@ -166,8 +166,22 @@ static json op_xml(const json& req)
     std::string via = req.value("via", "buffer");
     auto doc = std::make_unique<Document>();
     int ret = -99;
+    std::string stat = req.value("static", "library");
     guarded(out, [&] {
-        if (via == "buffer")
+        if (stat != "library") {
+            // the steps of parse_XML_buffer(const char*, Document*, bool) spelled out, so that the harness knows
+            // (or decides) whether static analysis ran: "auto" = as the library does, "off" = never
+            DocumentBuilder builder(*doc);
+            ret = parse_XML_buffer(buf.c_str(), &builder, newxta);
+            bool run = ret == 0 && !doc->has_errors() && stat == "auto";
+            out["static_ran"] = run;
+            if (run) {
+                TypeChecker checker(*doc);
+                doc->accept(checker);
+                FeatureChecker fchecker(*doc);
+                doc->set_supported_methods(fchecker.get_supported_methods());
+            }
+        } else if (via == "buffer")
             ret = parse_XML_buffer(buf.c_str(), doc.get(), newxta);
         else {
             int fd = memfd_create("utapv-in", 0);
